@@ -1,9 +1,9 @@
 """C12 No lost wake-ups or credit races: the AtomicWaker protocol and RMW-only credit."""
-from an import Tracer, callee, walk, strip, fmt
+from an import Tracer, callee, walk, strip, fmt, strip_casts, const_eval
 from mir import loc_str
 from shared import (s3_register_recheck, s3b_wake_after_write, atomic_call, field_of_receiver,
                     is_waker_register)
-from muxcommon import credit_take_bodies, CREDIT_FIELD
+from muxcommon import credit_take_bodies, CREDIT_FIELD, edge_literals_dominating
 import rules_c03
 
 EXPLANATION = (
@@ -48,6 +48,41 @@ def check(facts, rep, tier, cfg):
                     "grant or close (fetch_add/swap + wake) that lands between the check and the registration is lost "
                     "and the writer sleeps although it could proceed or should fail" % ", ".join(missing),
                     witness=["bb%d %s" % (x, loc_str(b.term(x)["loc"])) for x in wit[-14:]])
+        # polarity of the re-check: Pending is returned only on the edges "credit re-loaded == 0" and "closed flag re-loaded == false"
+        trp = Tracer(facts, b)
+        for r in regs:
+            pend = [bi for bi in b.reachable_from(b.succ[r][0]) if not b.blocks[bi]["cleanup"] and b.dominates(r, bi) and any(
+                st["k"] == "Assign" and st["lhs"]["l"] == 0 and not st["lhs"].get("p") and st["rv"]["k"] == "Aggregate" and
+                st["rv"]["agg"].get("variant") == "Pending" for st in b.blocks[bi]["stmts"])]
+            for pb in pend:
+                def want_credit(g):
+                    p0 = strip_casts(g.pred)
+                    if g.kind != "bool" or p0.kind != "bin":
+                        return None
+                    for x, y, flip in ((strip(p0[2]), p0[3], False), (strip(p0[3]), p0[2], True)):
+                        if x.kind == "call" and x[6] == "load" and const_eval(y) == 0 and b.dominates(r, x[4]) and \
+                                any(z.kind == "field" and z[2] == CREDIT_FIELD for z in walk(x[3][0])):
+                            return {"Eq": {True}, "Ne": {False}, "Gt": {False}, "Le": {True}, "Lt": {False} if flip else None, "Ge": None}.get(p0[1]) if not flip else \
+                                {"Eq": {True}, "Ne": {False}, "Lt": {False}, "Ge": {True}}.get(p0[1])
+                    return None
+
+                def want_flag(g):
+                    p0 = strip(strip_casts(g.pred))
+                    if g.kind == "bool" and p0.kind == "call" and p0[6] == "load" and b.dominates(r, p0[4]) and \
+                            any(z.kind == "field" and z[2] == "finish_sent" for z in walk(p0[3][0])):
+                        return {False}
+                    return None
+                n += 1
+                wp = "%s (%s)" % (loc_str(b.term(pb)["loc"]), b.path)
+                okc = edge_literals_dominating(facts, b, trp, pb, want_credit)
+                okf = edge_literals_dominating(facts, b, trp, pb, want_flag)
+                if okc and okf:
+                    rep.ok("C12.R1", "%s/recheck-polarity" % b.path, wp, "Pending only when the re-loaded credit is 0 and the re-loaded closed flag is false")
+                else:
+                    rep.bad("C12.R1", "%s/recheck-polarity" % b.path, wp,
+                            "the Pending return after AtomicWaker::register is not taken on the edges `re-loaded credit == 0` and `re-loaded closed flag "
+                            "== false` (%s): the writer can park although credit is available / the stream is closed (the wake-up already happened), "
+                            "or spin instead of parking" % ("credit test wrong or missing" if not okc else "closed-flag test wrong or missing"))
         if not regs:
             rep.bad("C12.R1", "%s/no-register" % b.path, "%s (%s)" % (loc_str(b.loc), b.path),
                     "credit-take function never registers a waker before returning Pending")
